@@ -310,27 +310,25 @@ impl SubDeviceEeprom {
     decreases 0x10000 - word_addr
 @*/
 
-/*@fn file=src/subdevice/eeprom.rs impl="impl<P> SubDeviceEeprom<P>" name=identity subst="SubDeviceIdentity::buffer()=>[0u8; 16]" props=C12,C13
+/*@fn file=src/subdevice/eeprom.rs impl="impl<P> SubDeviceEeprom<P>" name=identity subst="SubDeviceIdentity::buffer()=>[0u8; 16]" props=C12,C13 try_all=1
     requires self.wf()
     ensures
         // the identity is decoded from exactly the 16 bytes at word 0x0008 (vendor, product, revision, serial)
         r is Ok ==> SubDeviceIdentity::unpack_spec(Seq::new(16, |i: int| self.provider.byte(0x10 + i))) == Ok::<SubDeviceIdentity, WireError>(r->Ok_0),
 @before "Ok(SubDeviceIdentity::unpack_from_slice(&buf)?)"
     proof { assert(buf@ =~= Seq::new(16, |i: int| self.provider.byte(0x10 + i))); }
-@try "SubDeviceIdentity::unpack_from_slice(&buf)?"
 @*/
 
-/*@fn file=src/subdevice/eeprom.rs impl="impl<P> SubDeviceEeprom<P>" name=mailbox_config subst="DefaultMailbox::buffer()=>[0u8; 10]" props=C12,C13
+/*@fn file=src/subdevice/eeprom.rs impl="impl<P> SubDeviceEeprom<P>" name=mailbox_config subst="DefaultMailbox::buffer()=>[0u8; 10]" props=C12,C13 try_all=1
     requires self.wf()
     ensures
         // the standard mailbox configuration is decoded from exactly the 10 bytes at word 0x0018
         r is Ok ==> DefaultMailbox::unpack_spec(Seq::new(10, |i: int| self.provider.byte(0x30 + i))) == Ok::<DefaultMailbox, WireError>(r->Ok_0),
 @before "Ok(DefaultMailbox::unpack_from_slice(&buf)?)"
     proof { assert(buf@ =~= Seq::new(10, |i: int| self.provider.byte(0x30 + i))); }
-@try "DefaultMailbox::unpack_from_slice(&buf)?"
 @*/
 
-/*@fn file=src/subdevice/eeprom.rs impl="impl<P> SubDeviceEeprom<P>" name=general subst="SiiGeneral::buffer()=>[0u8; 18]" props=C12,C13
+/*@fn file=src/subdevice/eeprom.rs impl="impl<P> SubDeviceEeprom<P>" name=general subst="SiiGeneral::buffer()=>[0u8; 18]" props=C12,C13 try_all=1
     requires self.wf()
     ensures
         // the General record is decoded from exactly the first 18 data bytes of a category whose header says "General"
@@ -343,7 +341,6 @@ impl SubDeviceEeprom {
     }
 @after ".ok_or(Error::Eeprom(EepromError::NoCategory))?;"
     let ghost reader0 = reader;
-@try "SiiGeneral::unpack_from_slice(&buf)?"
 @*/
 
 /*@fn file=src/subdevice/eeprom.rs impl="impl<P> SubDeviceEeprom<P>" name=size subst="u16::from_le_bytes=>u16_from_le_bytes@@u16::buffer()=>[0u8; 2]" props=C12,C13
@@ -405,7 +402,7 @@ impl SubDevice {
         // in every case: what is reported as read IS the stored bytes
         r is Ok ==> r->Ok_0 <= old(buf)@.len() && forall|i: int| 0 <= i < r->Ok_0 ==> final(buf)@[i] == eeprom_of(self.configured_address).byte(2 * start_word + i),
 @*/
-/*@fn file=src/subdevice/mod.rs impl="impl SubDevice" name=eeprom_read subst="MainDevice<'_>=>MainDevice@@T::PACKED_LEN=>T::packed_len_exec()" truncate_casts=1 props=C12
+/*@fn file=src/subdevice/mod.rs impl="impl SubDevice" name=eeprom_read subst="MainDevice<'_>=>MainDevice@@T::PACKED_LEN=>T::packed_len_exec()" truncate_casts=1 props=C12 try_all=1
     ensures
         // the value is decoded from exactly the PACKED_LEN bytes stored at byte 2 * start_word of THIS device's EEPROM
         r is Ok ==> T::packed_len() <= 0xffff ==> Ok::<T, WireError>(r->Ok_0) == T::unpack_spec(stored(self.configured_address, start_word, T::packed_len() as int)),
@@ -416,7 +413,6 @@ impl SubDevice {
             assert(buf.v@ =~= stored(self.configured_address, start_word, T::packed_len() as int));
         }
     }
-@try "T::unpack_from_slice(buf.as_ref())?"
 @*/
 /*@fn file=src/subdevice/mod.rs impl="impl SubDevice" name=eeprom_write_dangerously subst="MainDevice<'_>=>MainDevice@@T::PACKED_LEN=>T::packed_len_exec()" truncate_casts=1 props=C14
     requires
